@@ -119,7 +119,8 @@ def md_ops():
         ops.append(("del", k))
         ops.append(("pop", k))
         ops.append(("setdefault", k, "2"))
-    ops += [("poplist", "a"), ("poplist", "b"), ("popitem",), ("popitemlist",), ("setlistdefault", "a", ("x", "1")), ("setlistdefault", "b", ("2",)),
+    ops += [("poplist", "a"), ("poplist", "b"), ("popitem",), ("popitemlist",), ("setlistdefault", "a", ("x", "1")), ("setlistdefault", "b", ("2",)), ("faulty_iterable", "setlistdefault", "a"), ("faulty_iterable", "setlistdefault", "z"),
+            ("faulty_iterable", "setlist", "b"), ("faulty_iterable", "update", "A"),
             ("update", "pairs", "a"), ("update", "dictlist", "A"), ("update", "dict", "b"), ("update", "md", "a"), ("update", "dicttuple", "b"), ("update", "dictset", "a"), ("update", "dictemptyset", "A"),
             ("clear",), ("ior", "a"), ("ior", "b"), ("copymut",), ("or", "A"), ("popdefault", "b"), ("setlistdefault_alias", "b")]
     return ops
@@ -201,6 +202,28 @@ def md_apply(W, md, m, op):
         if not m._f(op[1]):
             m.setlist(op[1], op[2])
         e = m.getlist(op[1])
+    elif name == "faulty_iterable":
+        # fault: an iterable argument that raises half-way (a cursor, a generator with a converter) - the call fails and
+        # the container is as it was before
+        def gen():
+            yield "g1"
+            raise OSError("source failed")
+
+        which, k = op[1], op[2]
+        try:
+            if which == "setlistdefault":
+                md.setlistdefault(k, gen())
+            elif which == "setlist":
+                md.setlist(k, gen())
+            else:
+                md.update((kk, vv) for kk, vv in ((k, v_) for v_ in gen()))
+            r = "no-error"
+        except OSError:
+            r = "OSError"
+        # (setlistdefault does not look at its default when the key is there)
+        e = "no-error" if which == "setlistdefault" and m._f(k) else "OSError"
+        if which == "update":
+            m.add(k, "g1")  # update() consumes pair by pair: what was read before the failure is in (documented as add())
     elif name == "setlistdefault_alias":
         # documented aliasing: the returned list is the internal one
         lst = md.setlistdefault(op[1], ["q"])
@@ -889,6 +912,20 @@ def laws(W, rec):
         law("C08/combined-items-multi", sorted(c.items(multi=True)) == sorted(allp), f"{list(c.items(multi=True))!r}", case)
         law("C08/combined-lists", dict(c.lists()) == {k: gl(k) for k in keys}, f"{dict(c.lists())!r}", case)
         law("C08/combined-to_dict", c.to_dict() == {k: gl(k)[0] for k in keys} and c.to_dict(flat=False) == {k: gl(k) for k in keys}, f"{c.to_dict()!r}", case)
+        # get(type=...): ValueError / TypeError from the converter mean "default"; anything else is the caller's to see
+        for k in sorted(keys)[:2]:
+            table = {}
+            outcomes = []
+            for cont in (c, DS.MultiDict(allp)):
+                try:
+                    outcomes.append(("value", cont.get(k, "dflt", type=table.__getitem__)))
+                except KeyError:
+                    outcomes.append(("KeyError",))
+                try:
+                    outcomes.append(("value", cont.get(k, "dflt", type=lambda v: 1 // 0)))
+                except ZeroDivisionError:
+                    outcomes.append(("ZeroDivisionError",))
+            law("C08/combined-get-converter-errors", outcomes[:2] == outcomes[2:], f"get({k!r}, type=...) on the combined view {outcomes[:2]!r}, on a MultiDict with the same content {outcomes[2:]!r}", case)
         # equality and hashing follow the content (the concatenation of the parts), like every other variant
         twin = DS.CombinedMultiDict([DS.MultiDict(p1), DS.MultiDict(p2)])
         law("C08/eq-hash:CombinedMultiDict", c == twin and not (c != twin) and hash(c) == hash(twin), f"equal views: == {c == twin}, != {c != twin}, hashes equal {hash(c) == hash(twin)}", case)
